@@ -247,7 +247,12 @@ def simplify_math_iterators(source: str) -> str:
                 continue
             if not arg.elts:
                 continue
-            yield node, _sum_constants(arg.elts)
+            try:
+                replacement = _sum_constants(arg.elts)
+            except (TypeError, ValueError):
+                # E.g. sum([1, "a"]): not a sum that sympy can compute
+                continue
+            yield node, replacement
 
         elif core.match_template(arg, basic_comprehension_template):
             if any(core.walk(arg, (ast.Attribute, ast.Subscript))):
